@@ -641,3 +641,15 @@ func loopBlocks(h *ssa.BasicBlock) map[*ssa.BasicBlock]bool {
 	}
 	return body
 }
+
+type types_Signature = types.Signature
+
+// signatureOf returns the signature of the called function or method.
+func signatureOf(c *ssa.CallCommon) *types.Signature {
+	if c.IsInvoke() {
+		s, _ := c.Method.Type().(*types.Signature)
+		return s
+	}
+	s, _ := c.Value.Type().Underlying().(*types.Signature)
+	return s
+}
